@@ -2366,6 +2366,8 @@ struct evrrul_s {
 	/* the period (group) the proto instant E.FROM was generated in,
 	 * nul for the very first fill */
 	echs_instant_t anc;
+	/* the last instant of the previous fill */
+	echs_instant_t last;
 };
 
 static echs_event_t next_evrrul(echs_evstrm_t, bool popp);
@@ -2560,6 +2562,27 @@ refill(struct evrrul_s *restrict strm)
 		}
 		strm->ncch = j;
 	}
+	/* sorting helps within a fill only, never go back behind the last
+	 * instant of the previous one (two dates shifted onto the same day
+	 * or wall clock times skipped by the zone come out as instants
+	 * that have been handed out already) */
+	if (!echs_nul_instant_p(strm->last)) {
+		size_t i;
+
+		for (i = 0U; i < strm->ncch &&
+			     !echs_instant_lt_p(strm->last, strm->cch[i]); i++);
+		if (i) {
+			strm->ncch -= i;
+			memmove(strm->cch, strm->cch + i,
+				strm->ncch * sizeof(*strm->cch));
+			memmove(strm->cch + GRP_CCH_OFF,
+				strm->cch + GRP_CCH_OFF + i,
+				strm->ncch * sizeof(*strm->cch));
+		}
+	}
+	if (strm->ncch) {
+		strm->last = strm->cch[strm->ncch - 1U];
+	}
 	/* UNTIL is in UTC and the fillers tested it against candidates that
 	 * weren't yet, one of them might have moved past it */
 	for (size_t i = 0U; i < strm->ncch && strm->cal == SCALE_GREGORIAN; i++) {
@@ -2580,8 +2603,13 @@ next_evrrul(echs_evstrm_t s, bool popp)
 
 	/* it's easier when we just have some precalc'd rdates */
 	if (this->rdi >= this->ncch) {
-		/* we have to refill the rdate cache */
-		if (refill(this) == 0UL) {
+		/* we have to refill the rdate cache, go on when all a fill
+		 * came up with has been handed out before */
+		size_t n;
+
+		while ((n = refill(this)) == 0UL &&
+		       !echs_nul_instant_p(this->e.from) && this->rrul.count);
+		if (n == 0UL) {
 			goto nul;
 		}
 		/* reset counter */
